@@ -147,7 +147,11 @@ FCalc(lazy) == { <<Rule(<<Dl(".", FALSE), I("a", FALSE)>>, <<Decl(p, v)>>)>> : v
                      <<Rule(<<I("p", FALSE)>>, Red)>>)>> : e \in {x \in CalcSums : x[2].v \in {"+", "-"}} }
 
 (* spelling-sensitive values and every token kind *)
-FTok(lazy) == { <<Rule(<<Dl(".", FALSE), I("a", FALSE)>>, <<Decl(p[1], p[2])>>)>> : p \in {
+(* U+FEFF as the first character of the text handed to the compiler (it is given a decoded string: the character is an
+   identifier code point like any other outside ASCII, and every position on the first line counts it) *)
+FBom == { <<Rule(<<I("~B~div", FALSE), Dl(".", FALSE), I("a", FALSE)>>, <<Decl("width", <<Dim(2, "rpx", FALSE)>>)>>), Rule(<<Dl(".", FALSE), I("b", FALSE)>>, Red)>>,
+          <<Rule(<<I("~B~", FALSE), Dl(".", FALSE), I("a", TRUE)>>, Red), Rule(<<I("p", FALSE)>>, <<Decl("width", <<Dim(3, "rpx", FALSE)>>)>>)>> }
+FTok(lazy) == FBom \cup { <<Rule(<<Dl(".", FALSE), I("a", FALSE)>>, <<Decl(p[1], p[2])>>)>> : p \in {
             <<"color", <<Hx("0a0", FALSE)>>>>, <<"color", <<Hx("00FF00aa", FALSE)>>>>, <<"content", <<Str("a \"q\" \\ b", FALSE)>>>>,
             <<"content", <<Str("it's", FALSE)>>>>, <<"background", <<Url("a b.png", FALSE)>>>>, <<"background", <<Url("x(1).png", FALSE)>>>>,
             <<"font", <<Dim(3, "px", FALSE), Dl("/", FALSE), Num(2, FALSE), I("a", TRUE), Com(FALSE), Str("B c", TRUE)>>>>,
@@ -249,6 +253,10 @@ FImport(lazy) == { <<Import(f, p, l, s, m)>> : f \in {"string", "url"}, p \in Im
                   <<At("media", <<I("screen", TRUE)>>, "rules", <<At("supports", <<Par(<<I("a", FALSE), Col(FALSE), I("b", FALSE)>>, TRUE)>>, "rules", <<Ord("m")>>),
                                                                   Import("string", "c", "none", <<>>, <<>>)>>)>> }
            \cup { <<Import("string", "a", "none", <<>>, <<>>), Import("string", "b", "x", <<>>, <<I("print", TRUE)>>), Ord("z")>> }
+           (* conditions that hold a calculation: the wrapper's condition is the import's, + and - keep their white space *)
+           \cup { <<Import(f, "a", l, s, m)>> : f \in {"string", "url"}, l \in {"none", "x"},
+                     s \in {<<>>, <<I("width", FALSE), Col(FALSE), Fn("calc", <<Dim(3, "px", FALSE), Dl("+", TRUE), Dim(3, "em", TRUE)>>, TRUE)>>},
+                     m \in {<<Par(<<I("min-width", FALSE), Col(FALSE), Fn("calc", <<Dim(3, "px", FALSE), Dl(op, TRUE), Dim(2, "rpx", TRUE)>>, TRUE)>>, TRUE)>> : op \in {"+", "-"}} }
            (* imports ended by the end of the sheet / of their block, with and without conditions *)
            \cup { <<ImportEnd(f, p, l, s, m)>> : f \in {"string", "url"}, p \in {"a.wxss", "a b"}, l \in {"none", "x"},
                      s \in {<<>>, <<I("display", FALSE), Col(FALSE), I("grid", TRUE)>>},
